@@ -372,9 +372,9 @@ class LatticeColumn:
 
     def values_all(self):
         """All matches for the emitting layer and all non-emitting layers."""
-        values = set()
+        values = []
         for o in self.o:
-            values.update(o.values())
+            values.extend(o.values())
         return values
 
     def values(self, obs_ne=None):
